@@ -8,7 +8,7 @@ EXPLANATION = ("R-ORDER in Cancel::cancel / yield_with / check_cancel; R-SIB can
                "is_canceled, true edge calls cancel(), or be in the non-cancellable table); R-SIB forwarding handshake of all "
                "five waiters and their wakers; R-WHO callers of trigger_cancel_panic; R-EXIT no poisoning by a cancel unwind; "
                "a Park that never entered the kernel is droppable (wait_kernel starts false)")
-EXPLANATION_2 = ('CancelImpl.state encoding (bit 0 / +2 per disable; is_canceled == 1, is_disabled >= 2), set_co/clear forwarding, Coroutine::cancel forwarding, Mutex cancel arm, blocker wiring')
+EXPLANATION_2 = ('CancelImpl.state encoding (bit 0 / +2 per disable; is_canceled == 1, is_disabled >= 2), set_co/clear forwarding, Coroutine::cancel forwarding, Mutex cancel arm, blocker wiring; a destructor that yields is cancel-masked (F27); the wait is registered with the Cancel before the coroutine is published (F34, known finding)')
 NOT_DECIDED = "that every stack value is dropped once (Rust unwinding, trusted); progress of the other actors over all interleavings"
 CONFIGS_QUICK = ["default"]
 CONFIGS_THOROUGH = ["default", "nosteal", "bare"]
@@ -113,6 +113,8 @@ def check(ctx):
         pubs = ctx.an.sites(f, Call(AO + "store|" + AO + "some", transitive=True), "must")
         if not pubs:
             ctx.missing("R-SIB", f.id, "publish-before-register:" + adt.rsplit("::", 1)[-1], "no publication of the coroutine (AtomicOption store/some) found in %s" % f.id)
+        elif shared.recheck_takes_own_slot(ctx, f):
+            ctx.ob("R-SIB", f.id, "publish-before-register:" + adt.rsplit("::", 1)[-1], True, "the re-check takes the coroutine out of its own slot: the registration does not have to follow the publication", f.where(), nontrivial=False)
         else:
             ctx.order(f.id, Call(AO + "store|" + AO + "some", transitive=True), reg, "publish-before-register:" + adt.rsplit("::", 1)[-1],
                       "%s::subscribe publishes the coroutine before it registers with the cancel data" % adt, rule="R-SIB")
@@ -134,8 +136,11 @@ def check(ctx):
     syncblocker_rules(ctx)
     # ---- who may raise the Cancel panic
     ctx.who_may_call(r"may::cancel::trigger_cancel_panic",
-                     {CK, MXL + "::lock", RW + "::read", RW + "::write", SE + "::wait_timeout_impl", SF + "::wait_timeout_impl", CV + "::wait", CV + "::wait_timeout"},
-                     "cancel-panic-callers", "the Cancel panic is raised only by check_cancel and by the five primitives after their handshake", min_callers=8)
+                     {CK, MXL + "::lock", RW + "::read", RW + "::write", SE + "::wait_timeout_impl", SF + "::wait_timeout_impl", CV + "::wait", CV + "::wait_timeout",
+                      # (F30) the select coroutine whose event was never sent: guarded by the C16 rule yield-back/cancel-panic-only-if-event-not-sent
+                      "<may::cqueue::EventSender as may::coroutine_impl::EventSource>::yield_back"},
+                     "cancel-panic-callers", "the Cancel panic is raised only by check_cancel, by the five primitives after their handshake and by a select coroutine whose event was not sent", min_callers=8)
+    ctx.import_rules("C16", r"^yield-back/cancel-panic-only-if-event-not-sent")
     for fid in (RW + "::read", RW + "::write"):
         ctx.guarded(fid, TRIGGER, lambda a: a.kind == "variant" and a.name == "Canceled", fid.rsplit("::", 1)[-1] + "-panic-only-if-canceled",
                     "%s raises the Cancel panic only when lock() reported Canceled" % fid, pred_label="edge `lock()` is Err(Canceled)")
@@ -179,3 +184,4 @@ def check(ctx):
     ctx.import_rules("C02", r"^canceled-only-if-canceled$|^self-injection$|^injected-kind$")
     ctx.import_rules("C18", r"^io-cancel/")
     shared.drops_do_not_block_unmasked(ctx)
+    shared.cancel_registered_before_publish(ctx, only=r"may::park::|may::sleep::|may::sync::fast_blocking::")
